@@ -179,7 +179,7 @@ def value_equal_scenarios(ctx, out):
     from pyecore import ecore as E
     from pyecore.resources import ResourceSet, URI
     rng = common.rng_for(ctx.seed, 'C02:valueeq')
-    n = 60 if ctx.tier != 'thorough' else 1000
+    n = 150 if ctx.tier != 'thorough' else 2000
     cnt = 0
 
     @E.EMetaclass
@@ -206,7 +206,7 @@ def value_equal_scenarios(ctx, out):
         bad = None
         for step in range(rng.randrange(3, 10)):
             i, j = rng.randrange(7), rng.randrange(7)
-            k = rng.choice(['append', 'append', 'set', 'rappend', 'remove'])
+            k = rng.choice(['append', 'append', 'set', 'rappend', 'rappend', 'rappend', 'remove'])
             o, p = objs[i], objs[j]
             try:
                 if k in ('append', 'set'):
@@ -224,9 +224,7 @@ def value_equal_scenarios(ctx, out):
                         p.one = o
                 elif k == 'rappend':
                     r = res[j % 2]
-                    if any(x == o and x is not o for x in r.contents):
-                        continue
-                    r.append(o)
+                    r.append(o)          # (equal twins may be roots of one resource: a root list is a plain list)
                 else:
                     c = o.eContainer()
                     if c is None:
